@@ -665,6 +665,45 @@ func (ex *Exec) callBuiltin(b *ssa.Builtin, args []Value, site ssa.Instruction) 
 			}
 		}
 		return nil
+	case "SliceData":
+		return DataPtr{A: args[0].(Slice).A}
+	case "StringData":
+		st0 := args[0].(Str)
+		return DataPtr{S: &st0}
+	case "String":
+		dp, ok := args[0].(DataPtr)
+		if !ok {
+			if p, isP := args[0].(Ptr); isP && p.P == nil {
+				return Str{}
+			}
+			panic(engineErr("unsafe.String on %T", args[0]))
+		}
+		n := int(ex.concretize(args[1].(*Term), 0, 1<<30, "unsafe.String length"))
+		if dp.S != nil {
+			if dp.S.Sym == nil {
+				return Str{S: dp.S.S[:n]}
+			}
+			return mkStr(dp.S.Sym[:n])
+		}
+		if n == 0 {
+			return Str{}
+		}
+		return mkStr(sliceBytes(ex, Slice{A: dp.A[:n]}))
+	case "Slice":
+		dp, ok := args[0].(DataPtr)
+		if !ok {
+			panic(engineErr("unsafe.Slice on %T", args[0]))
+		}
+		n := int(ex.concretize(args[1].(*Term), 0, 1<<30, "unsafe.Slice length"))
+		if dp.S != nil {
+			bs := ex.strBytes(*dp.S)
+			a := make([]Value, n)
+			for i := 0; i < n; i++ {
+				a[i] = bs[i]
+			}
+			return Slice{A: a, NonNil: true}
+		}
+		return Slice{A: dp.A[:n:n], NonNil: true}
 	case "ssa:wrapnilchk":
 		recv := args[0]
 		if p, ok := recv.(Ptr); ok && p.P == nil {
